@@ -24,7 +24,14 @@ O (direct oracle, Python, from the property text)
       the real code (a separate single-connection run);
   O2  every batch a connection receives carries its own connection id and consecutive step numbers of one state;
   O3  connections between `transport_factory(conn)` and `transport.close()` never exceed `max_connections`;
-  O4  no deadlock / hang / stray exception, every client finishes its script.
+  O4  no deadlock / hang / stray exception, every client finishes its script;
+  O5  no connection is served without holding a `max_connections` permit (configurations with `idle_timeout` next to
+      `max_connections` and handlers that take logical time, so queued connections wait shorter / longer than the idle
+      timeout);
+  O6  no method is dispatched while the implementation's `on_serve_start` (run for another connection's first
+      `serve()`) has not finished: every schedule starts from a FRESH, unbound server, the hook's start-up work spans
+      several scheduling points and the generated methods refuse to answer until it is done — so a connection answered
+      by a half-started service observes something it never observes alone.
 """
 
 import io
@@ -72,7 +79,9 @@ PARTIAL = [
 RULE = (
     "configurations = generated service (2-5 methods: unary / producer / exchange, logs, headers, failing steps) x 2-3 "
     "connections, each with a generated script (1-3 calls; streams ticked / fed to their end) x max_connections in "
-    "{None, 1, 2} x transport class {UnixTransport, TcpTransport}; for each: schedules with <= 2 (quick) / 3 (thorough) "
+    "{None, 1, 2} x transport class {UnixTransport, TcpTransport} x implementation with / without an on_serve_start hook "
+    "(fresh unbound server per schedule) x idle_timeout in {None, 1, 2, 5 s} x per-connection handler slowness (0.4 / 1.5 / 4 "
+    "x idle_timeout of logical time per call / process step); for each: schedules with <= 2 (quick) / 3 (thorough) "
     "preemptions (capped), then PCT / random-walk schedules. A case is non-trivial when at least two connections were "
     "being served at overlapping times or queued on the semaphore; distinct by (configuration, schedule)"
 )
@@ -223,6 +232,7 @@ def state_cls() -> Any:
         conn: int = 0
 
         def process(self, input: Any, out: Any, ctx: Any) -> None:
+            RT[0].enter(self.conn)
             steps = json.loads(self.prog)
             k = self.i
             self.i = k + 1
@@ -256,22 +266,62 @@ def state_cls() -> Any:
     return TagState
 
 
-def build(desc: dict[str, Any]) -> tuple[type, Any]:
+class Rt:
+    """Run-time switches of a generated implementation (set by `Env`): the scheduler, whether the implementation has an
+    `on_serve_start` hook (its one-shot start-up work takes a few scheduling points; until it has finished the service is
+    NOT ready and every method refuses to answer), and per-connection handler slowness in seconds of logical time."""
+
+    def __init__(self) -> None:
+        self.ds: DetSched | None = None
+        self.ready = True
+        self.slow: dict[int, float] = {}
+
+    def emit(self, kind: str, *a: Any) -> None:
+        if self.ds is not None:
+            self.ds.emit(kind, *a)
+
+    def enter(self, a: int) -> None:
+        """Start of a method body / process() call made for connection `a`."""
+        if not self.ready:
+            self.emit("early-dispatch", a)
+            raise RuntimeError("service not started (on_serve_start has not finished)")
+        d = self.slow.get(a)
+        if d and self.ds is not None:
+            self.ds.time.sleep(d)
+
+
+RT: list[Rt] = [Rt()]  # the switches of the implementation being run (one configuration at a time)
+
+
+def build(desc: dict[str, Any], hook: bool = False, rt: "Rt | None" = None) -> tuple[type, Any]:
     """(Protocol, implementation) — like svcgen.build, but results and stream states depend on the argument `a`
     (the connection id the client passes)."""
     svcgen = _svc()
     from vgi_rpc.log import Level
     from vgi_rpc.rpc import CallContext, Stream
 
+    rt = rt or Rt()
     TagState = state_cls()
     pns: dict[str, Any] = {"__module__": svcgen.__name__}
     ins: dict[str, Any] = {"__module__": svcgen.__name__}
+    if hook:
+        def on_serve_start(self: Any, kind: Any) -> None:
+            rt.emit("hook-start")
+            d = rt.ds
+            if d is not None:
+                for _ in range(3):  # start-up work during which other connections may arrive
+                    d.point(what="on_serve_start")
+            rt.ready = True
+            rt.emit("hook-done")
+
+        ins["on_serve_start"] = on_serve_start
     for m in desc["methods"]:
         name = m["name"]
         if m["kind"] == "unary":
             pns[name] = svcgen._clone(svcgen._p_unary, name)
 
             def impl_u(self: Any, a: int, ctx: CallContext, _m: Any = m) -> int:
+                rt.enter(a)
                 for lg in _m.get("logs", []):
                     ctx.client_log(Level(lg["level"]), lg["text"], **dict(lg.get("extra", {}), c=str(a)))
                 out = _m["out"]
@@ -286,6 +336,7 @@ def build(desc: dict[str, Any]) -> tuple[type, Any]:
             pns[name] = svcgen._clone(svcgen._p_stream_h if hdr else svcgen._p_stream, name)
 
             def impl_s(self: Any, a: int, ctx: CallContext, _m: Any = m, _hdr: bool = hdr):  # type: ignore[no-untyped-def]
+                rt.enter(a)
                 for lg in _m.get("init_logs", []):
                     ctx.client_log(Level(lg["level"]), lg["text"], **dict(lg.get("extra", {}), c=str(a)))
                 st = TagState(prog=json.dumps(_m["steps"]), i=0, exchange=_m["kind"] == "exchange", tag=_m["name"], conn=a)
@@ -477,9 +528,14 @@ class Env:
 
         self.S, self.T = S, T
         self.cfg = cfg
-        self.P, self.impl = build(cfg["service"])
+        self.rt = Rt()
+        RT[0] = self.rt
+        self.hook = bool(cfg.get("hook"))
+        self.rt.slow = {int(k): float(v) for k, v in (cfg.get("slow") or {}).items()}
+        self.P, self.impl = build(cfg["service"], self.hook, self.rt)
         self.server = RpcServer(self.P, self.impl)
-        self.ds: DetSched | None = None
+        self.RpcServer = RpcServer
+        self._ds: DetSched | None = None
         base = T.UnixTransport if cfg.get("transport", "unix") == "unix" else T.TcpTransport
         env = self
 
@@ -496,6 +552,24 @@ class Env:
 
         self.base = base
         self.Traced = Traced
+
+    @property
+    def ds(self) -> "DetSched | None":
+        return self._ds
+
+    @ds.setter
+    def ds(self, d: "DetSched | None") -> None:
+        self._ds = d
+        self.rt.ds = d
+
+    def reset(self, ds: DetSched) -> None:
+        """A FRESH server for every schedule: unbound, a new (scheduled) transport lock, start-up work not done — so the
+        first connections of every run race through `_notify_transport` / `on_serve_start`."""
+        R = self.RpcServer
+        R.__dict__["_transport_kind"].__set__(self.server, None)
+        R.__dict__["_transport_capabilities"].__set__(self.server, frozenset())
+        R.__dict__["_transport_lock"].__set__(self.server, ds.threading.Lock())
+        self.rt.ready = not self.hook
 
     def factory(self, conn: Any) -> Any:
         d = self.ds
@@ -572,11 +646,14 @@ def make_sched(env: Env, lines: bool = False) -> DetSched:
 
 
 def make_setup(env: Env, scripts: list[list[list[Any]]], cap: int | None, only: int | None = None) -> Any:
+    idle = env.cfg.get("idle")
+
     def setup(ds: DetSched) -> Any:
         env.ds = ds
+        env.reset(ds)
         L = Listener(ds)
         done: list[int] = []
-        ds.spawn(env.T._serve_socket_threaded, env.server, L, cap, None, env.factory, "c41", name="acceptor")
+        ds.spawn(env.T._serve_socket_threaded, env.server, L, cap, idle, env.factory, "c41", name="acceptor")
         ids = [i for i in range(len(scripts)) if only is None or i == only]
         for i in ids:
             ds.spawn(client, env, L, i, scripts[i], done, name=f"client{i}")
@@ -592,6 +669,7 @@ def analyse(cfg: dict[str, Any], run: Any) -> dict[str, Any]:
     obs: dict[int, list[list[Any]]] = {}
     handler: dict[int, int] = {}
     last_accept: int | None = None
+    accept_tid = -99
     serving: set[int] = set()
     holding: set[int] = set()
     max_serving = max_holding = 0
@@ -599,15 +677,23 @@ def analyse(cfg: dict[str, Any], run: Any) -> dict[str, Any]:
     queued = False
     anomalies: list[str] = []
     done: set[int] = set()
+    gave_up: list[int] = []
+    early: list[int] = []
+    unpermitted: list[int] = []
     for ev in run.trace:
         k, tid = ev[0], ev[1]
         if k == "accept":
             last_accept = ev[2]
+            accept_tid = tid
             labels.append(["accept", ev[2]])
         elif k == "spawn":
-            if last_accept is not None:
-                handler[ev[2]] = last_accept
-                last_accept = None
+            # handler threads are named "<prefix>-<conn.fileno()>" (fileno = 100 + connection id); other threads started
+            # meanwhile (idle timers) are not handlers
+            name = str(ev[3]) if len(ev) > 3 else ""
+            if name.startswith("c41-") and name[4:].isdigit():
+                handler[ev[2]] = int(name[4:]) - 100
+                if tid != accept_tid:
+                    anomalies.append("handler thread started by a thread other than the accept loop")
         elif k == "sem-acq":
             c = handler.get(tid)
             if c is None:
@@ -628,6 +714,8 @@ def analyse(cfg: dict[str, Any], run: Any) -> dict[str, Any]:
                 anomalies.append("transport built by a thread that is not the connection's handler")
             if serving:
                 overlap = True
+            if cfg["cap"] is not None and ev[2] not in holding:
+                unpermitted.append(ev[2])
             serving.add(ev[2])
             max_serving = max(max_serving, len(serving))
             labels.append(["begin", ev[2]])
@@ -640,15 +728,24 @@ def analyse(cfg: dict[str, Any], run: Any) -> dict[str, Any]:
             labels.append(["op", ev[2], evs])
         elif k == "client-done":
             done.add(ev[2])
-        elif k == "tryfail" or k == "timeout":
-            queued = True
+        elif k == "timeout":
+            c = handler.get(tid)
+            if c is not None:
+                gave_up.append(c)  # the handler's wait for a permit timed out
+        elif k == "early-dispatch":
+            early.append(ev[2])
+    modelable = True
     for lab in labels:
         if lab[0] == "op":
+            if any(e[0] not in ("log", "data", "error", "value", "header", "end") for e in lab[2]):
+                modelable = False  # e.g. ["raised", …]: a non-RPC exception reached the client (reported by the oracle)
             lean_labels.append(["op", lab[1], to_lean(lab[2])])
         else:
             lean_labels.append(lab)
     return {"labels": labels, "lean": lean_labels, "obs": obs, "max_serving": max_serving, "max_holding": max_holding,
-            "overlap": overlap, "queued": queued, "anomalies": anomalies, "done": done}
+            "overlap": overlap, "queued": queued, "anomalies": anomalies, "done": done, "gave_up": gave_up, "early": early,
+            "modelable": modelable,
+            "unpermitted": unpermitted}
 
 
 def stamps_ok(conn: int, script: list[list[Any]], obs: list[list[Any]]) -> str | None:
@@ -681,7 +778,9 @@ def judge(ctx: Any, cfg: dict[str, Any], run: Any, an: dict[str, Any], model: An
     ctx.case(case, nontrivial=an["overlap"] or an["max_holding"] >= 2 or (cap is not None and n > cap), tags=(
         f"cap:{cap}", f"conns{n}", f"sched:{run.kind}", f"pre{min(run.preemptions, 4)}", f"transport:{cfg.get('transport', 'unix')}",
         f"max-serving{an['max_serving']}", "overlapping" if an["overlap"] else "serialised", f"src:{cfg.get('src', 'gen')}",
-        "lines" if cfg.get("lines") else "ops-only"))
+        "lines" if cfg.get("lines") else "ops-only", "hook" if cfg.get("hook") else "no-hook",
+        f"idle:{cfg.get('idle')}", "slow-handlers" if cfg.get("slow") else "fast-handlers",
+        "queued-past-idle" if (cfg.get("idle") is not None and run.clock > cfg["idle"] and cap is not None and n > cap) else "no-long-queue"))
     # ---- O
     if run.status != "ok":
         ctx.fail(case, f"C41:{run.status}", f"run ended with {run.status}: blocked {run.blocked}")
@@ -696,6 +795,14 @@ def judge(ctx: Any, cfg: dict[str, Any], run: Any, an: dict[str, Any], model: An
         ctx.fail(case, "C41:client-not-finished", f"clients finished: {sorted(an['done'])} of {n}")
     if cap is not None and an["max_serving"] > cap:
         ctx.fail(case, "C41:max-connections-exceeded", f"{an['max_serving']} connections were being served at once with max_connections={cap}")
+    if an["unpermitted"]:
+        ctx.fail(case, "C41:served-without-permit",
+                 f"connection(s) {an['unpermitted']} were served without holding a max_connections permit "
+                 f"(waits that timed out: {an['gave_up']}; idle_timeout={cfg.get('idle')})")
+    if an["early"]:
+        ctx.fail(case, "C41:dispatched-before-start",
+                 f"methods were dispatched for connection(s) {sorted(set(an['early']))} while on_serve_start (run for another "
+                 "connection) had not finished: served alone, a connection is never answered by a half-started service")
     for i in range(n):
         got = an["obs"].get(i, [])
         if any(e[0] == "raised" for evs in got for e in evs):
@@ -713,6 +820,8 @@ def judge(ctx: Any, cfg: dict[str, Any], run: Any, an: dict[str, Any], model: An
     # ---- K
     if an["anomalies"]:
         ctx.mismatch(case, "the modelled handler protocol", an["anomalies"], "trace shape")
+    if not an["modelable"]:
+        ctx.mismatch(case, "RPC results / RPC errors only", "a non-RPC exception reached a client", "observation outside the model's event grammar")
     if model is None:
         return
     if not model["ok"]:
@@ -782,7 +891,10 @@ def explore_cfg(ctx: Any, cfg: dict[str, Any], dfs: int, bound: int, rnd: int) -
             return
         models: list[Any] = [None] * len(batch)
         if ctx.driver is not None:
-            models = ctx.driver.batch([("C41.accepts", {"cap": cfg["cap"], "progs": progs, "events": an["lean"]}) for _r, an in batch])
+            idx = [i for i, (_r, an) in enumerate(batch) if an["modelable"]]
+            res = ctx.driver.batch([("C41.accepts", {"cap": cfg["cap"], "progs": progs, "events": batch[i][1]["lean"]}) for i in idx])
+            for i, r in zip(idx, res):
+                models[i] = r
         for (run, an), m in zip(batch, models):
             judge(ctx, cfg, run, an, m, solo)
         batch.clear()
@@ -835,6 +947,17 @@ CORPUS: list[dict[str, Any]] = [
 ]
 
 
+# a queued connection outlives idle_timeout behind a slow slot holder; first connections race through start-up
+_U = [["call", "u0"], ["call", "u0"]]
+CORPUS += [
+    {"service": SVC_A, "scripts": [_U, _U], "cap": 1, "idle": 2.0, "slow": {"0": 3.0}, "hook": True},
+    {"service": SVC_A, "scripts": [_P1, [["call", "u0"]], _X2], "cap": 2, "idle": 1.0, "slow": {"0": 1.5, "1": 4.0}, "hook": True,
+     "transport": "tcp"},
+    {"service": SVC_A, "scripts": [[["call", "u0"]], [["call", "u0"]], [["call", "u3"]]], "cap": None, "hook": True},
+    {"service": SVC_A, "scripts": [_P4, _X2], "cap": 2, "hook": True},
+]
+
+
 def gen_cfg(rng: Any, conns: int) -> dict[str, Any]:
     from harness import c01
 
@@ -845,7 +968,17 @@ def gen_cfg(rng: Any, conns: int) -> dict[str, Any]:
     scripts = [gen_script(rng, desc) for _ in range(conns)]
     if rng.random() < 0.4:  # the same script on two connections: identical traffic, only the stamps differ
         scripts[-1] = [list(op) for op in scripts[0]]
-    return {"service": desc, "scripts": scripts, "cap": rng.choice([None, 1, 1, 2, 2]), "transport": rng.choice(["unix", "tcp"]), "src": "gen"}
+    cfg: dict[str, Any] = {"service": desc, "scripts": scripts, "cap": rng.choice([None, 1, 1, 2, 2]),
+                           "transport": rng.choice(["unix", "tcp"]), "src": "gen", "hook": rng.random() < 0.7}
+    if rng.random() < 0.5:
+        # idle_timeout next to max_connections, and handlers that take (logical) time: queued connections wait
+        # shorter / longer than the idle timeout behind them
+        idle = rng.choice([1.0, 2.0, 5.0])
+        cfg["idle"] = idle
+        cfg["slow"] = {str(i): rng.choice([0.4, 1.5, 4.0]) * idle for i in range(conns) if rng.random() < 0.6}
+    elif rng.random() < 0.3:
+        cfg["slow"] = {str(rng.randrange(conns)): rng.choice([0.5, 3.0])}
+    return cfg
 
 
 # ------------------------------------------------------------------------------------------ run / replay
@@ -868,11 +1001,11 @@ def _run(ctx: Any) -> None:
         if not g["shape"]:
             ctx.note("shape_facts_hold", False)
     bound = 3 if thorough else 2
-    per = ctx.budget(25, 120)  # bounded-preemption schedules (fewest preemptions first) ...
-    rnd = ctx.budget(35, 180)  # ... and PCT / random-walk schedules (mid-call preemptions) per configuration
+    per = ctx.budget(20, 120)  # bounded-preemption schedules (fewest preemptions first) ...
+    rnd = ctx.budget(30, 180)  # ... and PCT / random-walk schedules (mid-call preemptions) per configuration
     cfgs: list[tuple[dict[str, Any], int, int, int]] = []
     for c in CORPUS:
-        cfgs.append((dict(c, src="corpus"), per, bound, rnd))
+        cfgs.append((dict({"hook": True}, **c, src="corpus"), per, bound, rnd))
     for i in range(ctx.budget(10, 50)):
         c = gen_cfg(rng, 2 if i % 3 else 3)
         if i % 3 == 1:
@@ -880,8 +1013,8 @@ def _run(ctx: Any) -> None:
         cfgs.append((c, per, bound, rnd))
     cfgs.insert(2, (dict(CORPUS[1], src="corpus", lines=True), per, bound, rnd))
     total = 0
-    for cfg, dfs, b, rnd in cfgs:
-        total += explore_cfg(ctx, cfg, dfs, b, rnd)
+    for cfg, dfs, b, rn in cfgs:
+        total += explore_cfg(ctx, cfg, dfs, b, rn)
         if len(ctx.failures) >= STOP_AFTER or sum(1 for f in ctx.failures if f.key in ("C41:hang", "C41:step-limit")) >= 4:
             ctx.note("stopped_early", "enough failing inputs found")
             break
@@ -907,7 +1040,7 @@ def replay(ctx: Any, case: dict[str, Any]) -> None:
             env.ds = None
         an = analyse(cfg, run_)
         model = None
-        if ctx.driver is not None:
+        if ctx.driver is not None and an["modelable"]:
             progs = [model_prog(cfg["service"], s, i) for i, s in enumerate(cfg["scripts"])]
             model = ctx.driver.call("C41.accepts", {"cap": cfg["cap"], "progs": progs, "events": an["lean"]})
         judge(ctx, cfg, run_, an, model, solo)
